@@ -1125,7 +1125,7 @@ private:
 #endif
                     auto bmin = bigmin(*it, zmin, zmax);
                     auto range = super->pgm.search(bmin);
-                    it = std::upper_bound(super->data.begin() + range.lo, super->data.begin() + range.hi, bmin);
+                    it = std::lower_bound(super->data.begin() + range.lo, super->data.begin() + range.hi, bmin);
                     --it;
 #ifdef PGM_INDEX_VERIF
                     if (verif::jump_log)
@@ -1136,7 +1136,7 @@ private:
                 ++it;
             }
 
-            if (*it > zmax)
+            if (it != super->data.end() && *it > zmax)
                 it = super->data.end();
         }
 
